@@ -207,7 +207,7 @@ def context_cases(ctx, C, pp):
             C.add('p2.sync\t%d\tXXXX-01-01\t%s\t%s\tXXXX-01-02\t%s\t%s' % (y, fmt_dt(d), fmt_dt(d2), fmt_dt(d3), fmt_dt(d4)), G(sy),
                   'sync_year(ctx %d, (%s, %s), (%s, %s))' % (y, d, d2, d3, d4))
     for j, d in enumerate(days):
-        for k in (1, 5, 9):
+        for k in (0, 1, 5, 9):      # k = 0: begin == end (the strict comparison of swift_date_object)
             e = days[(j + k) % len(days)]
             C.add('p2.swift\t%s\t%s' % (fmt_dt(d), fmt_dt(e)), G(lambda: fmt_dt(DateContext.swift_date_object(d, e))), 'swift_date_object(%s, %s)' % (d, e))
             for ty in (0, 1, 2):
@@ -546,7 +546,7 @@ def run(ctx, n_refs=None):
     en = EnglishCommonDateTimeParserConfiguration().date_period_parser
     r = ctx.rng('periods2-refs')
     bdays = calcorr.boundary_days()
-    n_b, n_s = (len(bdays), 300) if ctx.thorough else (n_refs or 40, 20)
+    n_b, n_s = (350, 120) if ctx.thorough else (n_refs or 40, 20)
     days = [dt.date(2020, 2, 29), dt.date(2019, 2, 28), dt.date(2020, 12, 31), dt.date(2021, 1, 1), dt.date(2019, 3, 15)] + \
         r.sample(bdays, min(n_b, len(bdays))) + calcorr.seeded_days(r, n_s)
     refs = [at(d, calcorr.TIMES[i % 3]) for i, d in enumerate(days)]
